@@ -57,7 +57,7 @@ func (s sortableByProperty) Less(i, j int) bool {
 		value := ToLiquid(s.data[i])
 		rt := reflect.ValueOf(value)
 		if rt.Kind() == reflect.Map && rt.Type().Key().Kind() == reflect.String {
-			elem := rt.MapIndex(reflect.ValueOf(s.key))
+			elem := rt.MapIndex(reflect.ValueOf(s.key).Convert(rt.Type().Key()))
 			if elem.IsValid() {
 				return elem.Interface()
 			}
